@@ -13,7 +13,7 @@ def design(ctx):
     out = {}
     r = ctx.tlc("Scopes", cfg_text=SCFG % "OnlyRealByObject", workers=2, timeout=300, dump="scopes", expect="ok")
     out["cases"] = r.distinct
-    for style in ("OnlyRealBySpelling", "OnlyRealByPkgObject"):
+    for style in ("OnlyRealBySpelling", "OnlyRealByPkgObject", "OnlyRealByPkgName"):
         r2 = ctx.tlc("Scopes", cfg_text=SCFG % style, workers=2, timeout=300, expect="violation")
         out["whatif_" + style] = r2.violated
     return out
